@@ -4,6 +4,7 @@ import Just.Lemmas.LexerSafe2
 import Just.Props.C12
 import Just.Lemmas.Unindent
 import Just.Model.Body
+import Just.Lemmas.Cook
 /-
 C11  No input makes just panic, abort, hang or report an internal error.
 
@@ -193,5 +194,19 @@ theorem sigil_slice_valid (l : Body.Line) :
               exact ⟨a, b, r' ++ Body.evalRest fs, by rw [hr']; rfl, Or.inl ha, Or.inr hb⟩
             · obtain ⟨r', hr'⟩ := hun2 (Or.inr ha) (Or.inl hb)
               exact ⟨a, b, r' ++ Body.evalRest fs, by rw [hr']; rfl, Or.inr ha, Or.inl hb⟩
+
+/-- `cook_string` (`u32::from_str_radix(hex, 16).unwrap()` in a `\\u{…}` escape): the unwrap cannot fail,
+whatever the string - the scan only ever collects hexadecimal digits, and rejects an empty escape first. -/
+theorem cook_unwrap_safe (text : List Char) : Cook.cook text ≠ .error .unwrapFailed :=
+  Cook.cookLoop_no_unwrap .initial text [] trivial
+
+/-- the same for a whole literal (indented strings are unindented first) -/
+theorem cook_literal_unwrap_safe (indented escapes : Bool) (raw : List Char) :
+    Cook.cookLiteral indented escapes raw ≠ .error .unwrapFailed := by
+  unfold Cook.cookLiteral
+  simp only
+  split
+  · exact cook_unwrap_safe _
+  · intro h; cases h
 
 end Just.C11
